@@ -58,13 +58,15 @@ def B1_apply_table(ctx):
     bad = []
     rows = set()
     for p in feasible(f.paths()):
-        imm = [a for a in p.events if a.kind == 'atom' and norm_cmp(a) and variant_of(norm_cmp(a)[2]) == 'Immediate']
+        # the mode, however it is tested (== / matches! / match)
+        eq_, ne_ = status_facts(p, len(p.events), lambda t: strip(t) == ('arg', 1))
+        is_imm = True if eq_ == {'Immediate'} else False if (eq_ or 'Immediate' in ne_) else None
         hook = [e for e in p.events if e.kind == 'call' and e.d['callee'].endswith('post_execution::reward_beneficiary')]
         sets = [e for e in p.events if e.kind == 'call' and e.d['callee'].endswith('Cell::<T>::set') or (e.kind == 'call' and norm_callee(e.d['callee']).endswith('Cell::set'))]
-        if not imm:
+        if is_imm is None:
             bad.append((p, 'mode not decided'))
             continue
-        if norm_cmp(imm[0])[0] == 'Eq':
+        if is_imm:
             rows.add('immediate')
             if len(hook) != 1 or sets:
                 bad.append((p, 'Immediate mode must run revm\'s hook and defer nothing'))
